@@ -191,8 +191,12 @@ struct Log {
     foreign_handshake: bool,
     foreign_all_acked: bool,
     zero_checksum_packets: u64,
+    reply_written: u64,
+    reply_read: Vec<u8>,
     errors: Vec<String>,
 }
+
+const REPLY_BASE: u64 = 1 << 32;
 
 impl E2Run for Cksum {
     fn id(&self) -> &'static str {
@@ -238,18 +242,27 @@ impl E2Run for Cksum {
                     // the same bit position of two words
                     let mut b = f.bytes.clone();
                     let n = b.len() as u64 * 8;
-                    let b1 = s.draw(n);
-                    b[(b1 / 8) as usize] ^= 0x80 >> (b1 % 8);
-                    if s.draw(2) == 1 {
+                    // a checksum with one or two bits set: flipping exactly those gives the value
+                    // UDP reads as "no checksum" - still an alteration the Internet checksum detects
+                    let unfragmented = b[6] & 0x3f == 0 && b[7] == 0;
+                    let ck = if b[9] == 17 { 26 } else { 36 };
+                    let ones = if unfragmented && b.len() > ck + 1 { (b[ck].count_ones() + b[ck + 1].count_ones()) as u64 } else { 0 };
+                    let clear = (b[9] == 17 || b[9] == 6) && (ones == 1 || ones == 2);
+                    let mut b1 = s.draw(n);
+                    if clear {
+                        b[ck] = 0;
+                        b[ck + 1] = 0;
+                        b1 = u64::MAX;
+                        *s.counters.entry("fault_checksum_bits_cleared".into()).or_insert(0) += 1;
+                    } else {
+                        b[(b1 / 8) as usize] ^= 0x80 >> (b1 % 8);
+                    }
+                    if !clear && s.draw(2) == 1 {
                         let mut b2 = s.draw(n);
                         if b2 % 16 == b1 % 16 {
                             b2 = (b2 + 1) % n;
                         }
                         b[(b2 / 8) as usize] ^= 0x80 >> (b2 % 8);
-                    }
-                    // a UDP checksum field flipped to zero means "not computed": not a detectable change
-                    if b[9] == 17 && b[26] == 0 && b[27] == 0 {
-                        return None;
                     }
                     flipped_log.lock().unwrap().push(f.bytes.clone());
                     *s.counters.entry("fault_bit_flip".into()).or_insert(0) += 1;
@@ -257,8 +270,9 @@ impl E2Run for Cksum {
                     if rejecting_layer(&f.bytes).is_none() {
                         match rejecting_layer(&b) {
                             None => accepted_log.lock().unwrap().push(format!(
-                                "{} with bit {b1} (and possibly one more) flipped is accepted by the IPv4 and transport decoders",
-                                describe_ipv4_frame(&f.bytes)
+                                "{} with {} is accepted by the IPv4 and transport decoders",
+                                describe_ipv4_frame(&f.bytes),
+                                if clear { "the set bits of its checksum cleared".to_string() } else { format!("bit {b1} (and possibly one more) flipped") }
                             )),
                             Some(l) => *s.counters.entry(format!("corruption_rejected_by_{l}")).or_insert(0) += 1,
                         }
@@ -283,6 +297,8 @@ impl E2Run for Cksum {
             let mut pcis = pcis.into_iter();
             let n_udp = 3 + sim::choose(10);
             let lens: Vec<usize> = (0..n_udp).map(|_| *[8usize, 9, 10, 11, 64, 101, 1000, 1471, 1472].get(sim::choose(9) as usize).unwrap()).collect();
+            // random upper id bits: the checksums of the datagrams take all values over the runs
+            let udp_ids: Vec<u64> = (0..n_udp).map(|k| (sim::choose(1 << 40) << 16) | (1000 + k)).collect();
             let chunks: Vec<usize> = (0..1 + sim::choose(6)).map(|_| *[1usize, 2, 3, 100, 999, 1450, 4001].get(sim::choose(7) as usize).unwrap()).collect();
             let n_foreign_udp = 2 + sim::choose(8);
             let foreign_lens: Vec<usize> = (0..n_foreign_udp).map(|_| *[8usize, 9, 10, 33, 64, 1001, 1472].get(sim::choose(7) as usize).unwrap()).collect();
@@ -303,7 +319,7 @@ impl E2Run for Cksum {
                 let mut chunks = chunks.into_iter();
                 for (k, len) in lens.into_iter().enumerate() {
                     if let Ok(s) = &session {
-                        let id = 1000 + k as u64;
+                        let id = udp_ids[k];
                         if s.send(Message::new(marked_payload(id, len)), ctx.machine.clone()).is_ok() {
                             log1.lock().unwrap().udp_sent.push((id, len));
                         }
@@ -317,9 +333,23 @@ impl E2Run for Cksum {
                             }
                         }
                     }
-                    tokio::time::sleep(Duration::from_millis(120)).await;
+                    // the other direction of the same connection: what E2 sends back
+                    if tcp_ok {
+                        if let Ok(Ok(b)) = tokio::time::timeout(Duration::from_millis(120), sock.recv(4096)).await {
+                            log1.lock().unwrap().reply_read.extend_from_slice(&b);
+                            continue;
+                        }
+                    } else {
+                        tokio::time::sleep(Duration::from_millis(120)).await;
+                    }
                 }
-                tokio::time::sleep(Duration::from_secs(100)).await;
+                if tcp_ok {
+                    while let Ok(Ok(b)) = tokio::time::timeout(Duration::from_secs(100), sock.recv(4096)).await {
+                        log1.lock().unwrap().reply_read.extend_from_slice(&b);
+                    }
+                } else {
+                    tokio::time::sleep(Duration::from_secs(100)).await;
+                }
                 drop(sock);
             });
             // ---- E2: records datagrams, accepts two streams (E1's and the foreign peer's)
@@ -355,6 +385,14 @@ impl E2Run for Cksum {
                                             g.foreign_stream_read.extend_from_slice(&b);
                                         } else {
                                             g.stream_read.extend_from_slice(&b);
+                                            // data flows back on the Elvis connection too, so that
+                                            // acknowledgment numbers move between transmissions
+                                            let n = b.len().min(1200) as u64;
+                                            let off = g.reply_written;
+                                            let data: Vec<u8> = (0..n).map(|i| sbyte(0, REPLY_BASE + off + i)).collect();
+                                            if s.send(data).is_ok() {
+                                                g.reply_written += n;
+                                            }
                                         }
                                     }
                                     _ => break,
@@ -561,7 +599,15 @@ impl E2Run for Cksum {
                 format!("the Elvis-to-Elvis stream: {} written, {} read, first difference at {p}", want.len(), log.stream_read.len()),
             ));
         }
-        out.add("stream_bytes_checked", want.len() as u64 + log.foreign_stream_written.len() as u64);
+        let want_reply: Vec<u8> = (0..log.reply_written).map(|i| sbyte(0, REPLY_BASE + i)).collect();
+        if log.reply_read.len() > want_reply.len() || log.reply_read[..] != want_reply[..log.reply_read.len()] {
+            out.violate(Violation::new(
+                "corruption-delivered",
+                "tcp-reply-stream-corrupted",
+                format!("the reply stream of the Elvis-to-Elvis connection: {} written, {} read, not a prefix", want_reply.len(), log.reply_read.len()),
+            ));
+        }
+        out.add("stream_bytes_checked", want.len() as u64 + log.foreign_stream_written.len() as u64 + log.reply_read.len() as u64);
         out
     }
 
@@ -584,7 +630,7 @@ impl E2Run for Cksum {
             real_components: vec!["Checksum, Ipv4/Udp/Tcp header build and parse with checksums on, Tcp+TcpSession+Tcb, SocketAPI/Socket, Pci, Network, run_internet".into()],
             stub_components: vec!["foreign stack peer (etherparse, raw frames, stop-and-wait TCP)".into(), "wire monitor with independent RFC 1071 verification".into()],
             fault_kinds: vec!["one- or two-bit corruption of frames in flight".into(), "task-order perturbation".into()],
-            assumptions: vec!["a UDP checksum field that a flip turns into 0x0000 means 'not computed' and is not counted as detectable".into()],
+            assumptions: vec!["a flip that turns a UDP checksum field into 0x0000 counts as detectable (the stack never emits 0x0000, and the unchanged decoder rejects it)".into()],
         }
     }
 }
